@@ -77,6 +77,22 @@ def r2_self_test_can_succeed(cx):
     chk = A.method(prog, "InitState", "check_salted_node_id_hash")
     dig = calls_in(chk, "ring::digest::digest")
     cx.check("recomputes-hash", len(dig) == 1, site_of(chk), "check_salted_node_id_hash recomputes the salted digest")
+    # ... under the salt carried by the *received* hash: every handshake object draws its own salt, so a digest salted
+    # with the own stored value recognises only this very object's messages
+    for ci, ct in dig:
+        buf = deep_root(chk, ct["args"][1])
+        srcs = []
+        for xi, xt in chk.calls():
+            if callee_is(xt, "slice::<impl [T]>::clone_from_slice", "slice::<impl [T]>::copy_from_slice") and len(xt["args"]) == 2:
+                d0 = deep_root(chk, xt["args"][0])
+                s0 = deep_root(chk, xt["args"][1])
+                if d0 is not None and buf is not None and d0["l"] == buf["l"] and s0 is not None:
+                    srcs.append(s0)
+        from_recv = any(r["l"] == 2 for r in srcs)
+        from_id = any(r["l"] == 3 for r in srcs)
+        from_own = any(r["l"] == 1 and place_is_field(r, "InitState", "salted_node_id_hash") for r in srcs)
+        cx.check("digest-salted-by-received-hash", buf is not None and from_recv and from_id and not from_own, site_of(chk, ci),
+                 "the recomputed digest is over (salt of the received hash, own node id), not over the object's own stored salt")
 
 
 def r3_own_addresses_not_dialled(cx):
